@@ -168,20 +168,45 @@ func runC05(c *Ctx) {
 		return true, bo.Op == token.EQL
 	})
 	checkVerdict("backoff == backoff.Stop", iff, vt)
-	// time.Before tests: maxElapsed and deadline
-	var befores []*ssa.If
-	allInstrs(send, func(in ssa.Instruction) {
-		if iff, ok := in.(*ssa.If); ok {
-			if call, ok := iff.Cond.(*ssa.Call); ok && isMethod(calleeOf(call), "time", "Time", "Before") {
-				befores = append(befores, iff)
+	// limit tests: maxElapsed and deadline. An ordering test on time.Time (`limit.Before(next)` or its mirror image
+	// `next.After(limit)`, possibly negated) one of whose operands is derived from a clock reading taken inside the
+	// loop (the time of the next attempt); the other operand is the limit.
+	type limitTest struct {
+		iff         *ssa.If
+		call        *ssa.Call
+		limit, next ssa.Value
+		verdictTrue bool
+	}
+	inLoopClock := func(v ssa.Value) bool {
+		for x := range backSlice(v) {
+			if cc, ok := x.(*ssa.Call); ok && isFunc(calleeOf(cc), "time", "Now") && canReach(att, cc, nil) {
+				return true
 			}
 		}
+		return false
+	}
+	var befores []limitTest
+	allInstrs(send, func(in ssa.Instruction) {
+		iff, ok := in.(*ssa.If)
+		if !ok {
+			return
+		}
+		lesser, greater, holdsOn, ok := timeOrderTestA3(iff.Cond)
+		if !ok {
+			return
+		}
+		v, _ := boolOf(Guard{Cond: iff.Cond, Branch: true})
+		lt := limitTest{iff: iff, call: v.(*ssa.Call), limit: lesser, next: greater, verdictTrue: holdsOn}
+		if inLoopClock(lesser) && !inLoopClock(greater) {
+			// `next < limit` is the continuing side
+			lt.limit, lt.next, lt.verdictTrue = greater, lesser, !holdsOn
+		}
+		befores = append(befores, lt)
 	})
 	var nextRetry ssa.Value
 	gotMax, gotDeadline := false, false
-	for _, b := range befores {
-		call := b.Cond.(*ssa.Call)
-		recv := call.Call.Args[0]
+	for _, lt := range befores {
+		b, call, recv := lt.iff, lt.call, lt.limit
 		name := "limit.Before(nextRetryTime)"
 		isDeadline := false
 		for v := range backSlice(recv) {
@@ -212,59 +237,63 @@ func runC05(c *Ctx) {
 			}
 			c.Check(okStart && nNow > 0, "the elapsed-time budget starts before the first attempt", p.Pos(call.Pos()), "end of budget = time.Now() read before the loop + MaxElapsedTime", "the end of the elapsed-time budget is derived from a clock reading taken after an attempt: the time spent in the (slow) first attempt is not counted and attempts are made after the configured budget has elapsed")
 		}
-		// Before(true) is the verdict; the cycle may bypass this If only through the "limit not set" side
+		// "the limit is earlier than the next attempt" is the verdict; the cycle may bypass this If only through the
+		// "limit not set" side
 		succ := b.Block().Succs[0]
+		if !lt.verdictTrue {
+			succ = b.Block().Succs[1]
+		}
 		reaches := len(succ.Instrs) > 0 && (succ.Instrs[0] == att || canReach(succ.Instrs[0], att, nil))
 		c.Check(!reaches, "verdict side of `"+name+"` makes no further attempt", p.Pos(b.Pos()), "cannot reach the attempt", "the loop retries although the next attempt does not fit the limit")
 		// the If must be evaluated on every cycle unless guarded off by IsZero / !has
 		bypassOK := true
 		if canReach(att, att, map[ssa.Instruction]bool{b: true}) {
-			// allowed only via the immediately dominating If testing IsZero()/has
-			id := b.Block().Idom()
+			// allowed only via a guard of the test that asks whether the limit is set: !limit.IsZero() or the
+			// `ok` result of Deadline() (written as `a && b` or as nested ifs)
 			okGuard := false
-			if id != nil {
-				if gi, ok := id.Instrs[len(id.Instrs)-1].(*ssa.If); ok {
-					v, _ := boolOf(Guard{Cond: gi.Cond, Branch: true})
-					if cc, ok := v.(*ssa.Call); ok && isMethod(calleeOf(cc), "time", "Time", "IsZero") {
-						okGuard = true
+			for _, g := range guardsOf(b.Block()) {
+				gi := g.If
+				v, br := boolOf(g)
+				isSet := false
+				if cc, ok := v.(*ssa.Call); ok && isMethod(calleeOf(cc), "time", "Time", "IsZero") && !br {
+					isSet = true
+				}
+				if ex, ok := v.(*ssa.Extract); ok && br {
+					if cc, ok := ex.Tuple.(*ssa.Call); ok && cc.Call.IsInvoke() && cc.Call.Method.Name() == "Deadline" {
+						isSet = true
 					}
-					if ex, ok := v.(*ssa.Extract); ok {
-						if cc, ok := ex.Tuple.(*ssa.Call); ok && cc.Call.IsInvoke() && cc.Call.Method.Name() == "Deadline" {
-							okGuard = true
-						}
-					}
-					if okGuard && canReach(att, att, map[ssa.Instruction]bool{b: true, gi: true}) {
-						okGuard = false
-					}
+				}
+				if isSet && !canReach(att, att, map[ssa.Instruction]bool{b: true, gi: true}) {
+					okGuard = true
 				}
 			}
 			bypassOK = okGuard
 		}
-		knownVerdict[b] = true
+		knownVerdict[b] = lt.verdictTrue
 		c.Check(bypassOK, "every retry cycle passes the `"+name+"` test (unless no limit is set)", p.Pos(b.Pos()), "on every cycle modulo limit-not-set", "a cycle bypasses the limit test")
-		if len(call.Call.Args) == 2 {
-			if nextRetry == nil {
-				nextRetry = call.Call.Args[1]
-			} else if !sameValue(nextRetry, call.Call.Args[1]) {
-				nextRetry = nil
-			}
+		if nextRetry == nil {
+			nextRetry = lt.next
+		} else if !sameValue(nextRetry, lt.next) {
+			nextRetry = nil
 		}
 	}
 	c.Check(gotMax, "retry loop tests max elapsed time", p.Pos(send.Pos()), "present", "no max-elapsed-time test: retries continue beyond the configured budget")
 	c.Check(gotDeadline, "retry loop tests the request deadline", p.Pos(send.Pos()), "present", "no deadline test")
-	// select cases
+	// select cases. The wait may live in Send itself or in a helper of the same package that Send calls (and that
+	// waits on every one of its paths): the cases are then followed through the helper's returns and the tests Send
+	// makes on the helper's result.
+	ws := findWaitSiteA3(send)
 	var sel *ssa.Select
-	allInstrs(send, func(in ssa.Instruction) {
-		if s, ok := in.(*ssa.Select); ok {
-			sel = s
-		}
-	})
+	var waitInstr ssa.Instruction
+	if ws != nil {
+		sel, waitInstr = ws.sel, ws.instr()
+	}
 	var waitDur ssa.Value
 	if sel != nil {
 		// "retried if and only if": between an attempt and the wait, Send gives up only on the verdicts the
 		// property names (success, permanent error, back-off exhausted, budget, deadline) – no other early return
 		for _, r := range returnsOf(send) {
-			if !canReach(att, r, map[ssa.Instruction]bool{sel: true}) {
+			if !canReach(att, r, map[ssa.Instruction]bool{waitInstr: true}) {
 				continue
 			}
 			okV := false
@@ -279,7 +308,7 @@ func runC05(c *Ctx) {
 	if sel == nil {
 		c.Bad("retry wait select", p.Pos(send.Pos()), "no select")
 	} else {
-		c.Check(!canReach(att, att, map[ssa.Instruction]bool{sel: true}), "every retry cycle waits in the select", p.Pos(sel.Pos()), "select on every cycle", "a cycle retries without waiting")
+		c.Check(!canReach(att, att, map[ssa.Instruction]bool{waitInstr: true}) && ws.alwaysWaits(), "every retry cycle waits in the select", p.Pos(sel.Pos()), "select on every cycle", "a cycle retries without waiting")
 		for i, stt := range sel.States {
 			kind := "other"
 			for v := range backSlice(stt.Chan) {
@@ -289,32 +318,30 @@ func runC05(c *Ctx) {
 					}
 					if f := calleeOf(cc); f != nil && f.FullName() == "time.After" {
 						kind = "timer"
-						waitDur = cc.Call.Args[0]
+						waitDur = ws.toOuter(cc.Call.Args[0])
 					}
 				}
 			}
-			if isFieldAccess(stt.Chan, retryT, "stopCh") || (kind == "other" && len(sliceLoadsFieldAny(stt.Chan, retryT)) > 0) {
+			if kind == "other" {
+				// a channel handed to the helper: classify the argument of the call
+				for v := range backSlice(ws.toOuter(stt.Chan)) {
+					if cc, ok := v.(*ssa.Call); ok {
+						if cc.Call.IsInvoke() && cc.Call.Method.Name() == "Done" {
+							kind = "ctx.Done"
+						}
+						if f := calleeOf(cc); f != nil && f.FullName() == "time.After" {
+							kind = "timer"
+							waitDur = cc.Call.Args[0]
+						}
+					}
+				}
+			}
+			if isFieldAccess(stt.Chan, retryT, "stopCh") || (kind == "other" && (len(sliceLoadsFieldAny(stt.Chan, retryT)) > 0 || len(sliceLoadsFieldAny(ws.toOuter(stt.Chan), retryT)) > 0)) {
 				kind = "stop"
 			}
 			// blocks under index==i
-			var region []*ssa.BasicBlock
-			allInstrs(send, func(in ssa.Instruction) {
-				iff, ok := in.(*ssa.If)
-				if !ok {
-					return
-				}
-				bo, ok := iff.Cond.(*ssa.BinOp)
-				if !ok || bo.Op != token.EQL {
-					return
-				}
-				ex, isEx := bo.X.(*ssa.Extract)
-				k, isC := constInt(bo.Y)
-				if isEx && isC && ex.Tuple == sel && ex.Index == 0 && int(k) == i {
-					region = append(region, iff.Block().Succs[0])
-				}
-			})
-			for _, rb := range region {
-				reaches := len(rb.Instrs) > 0 && (rb.Instrs[0] == att || canReach(rb.Instrs[0], att, nil))
+			for _, rb := range ws.caseBlocks(i) {
+				reaches := ws.caseReaches(rb, att)
 				switch kind {
 				case "ctx.Done", "stop":
 					c.Check(!reaches, "wait case "+kind+" ends the retries", p.Pos(sel.Pos()), "returns", "the "+kind+" case continues to another attempt")
